@@ -11,7 +11,8 @@ def absState (σ : RefState) : Streams := σ.map (fun x => (makeKey x.1.hdr, abs
 @[simp] theorem absState_length (σ : RefState) : (absState σ).length = σ.length := by simp [absState]
 
 /-- the header remembered for piece 0 belongs to the datagram (same protocol) -/
-def EpInv (d : DG) (e : Ep) : Prop := (∃ p ∈ e.got, p.1 = 0) → ∃ h, e.first = some h ∧ h.proto = d.hdr.proto
+def EpInv (d : DG) (e : Ep) : Prop :=
+  (∃ p ∈ e.got, p.1 = 0) → ∃ h, e.first = some h ∧ h.proto = d.hdr.proto ∧ h.nopt = d.hdr.nopt
 
 /-- invariant of reference states reachable under the hypothesis of the property -/
 def SInv (F : List DG) (σ : RefState) : Prop := ∀ x ∈ σ, x.1 ∈ F ∧ EpInv x.1 x.2
@@ -73,8 +74,8 @@ theorem getD_abs (d : DG) (o : Option Ep) : (o.map (absStream d)).getD {} = absS
 theorem EpInv_empty (d : DG) : EpInv d {} := by
   intro h; obtain ⟨p, hp, _⟩ := h; simp at hp
 
-theorem EpInv_add {d : DG} {e : Ep} (h : EpInv d e) (p : Nat × Nat) (hd : Hdr) (hproto : hd.proto = d.hdr.proto) :
-    EpInv d (e.add p hd) := by
+theorem EpInv_add {d : DG} {e : Ep} (h : EpInv d e) (p : Nat × Nat) (hd : Hdr) (hproto : hd.proto = d.hdr.proto)
+    (hnopt : p.1 = 0 → hd.nopt = d.hdr.nopt) : EpInv d (e.add p hd) := by
   unfold Ep.add
   split
   · exact h
@@ -82,7 +83,7 @@ theorem EpInv_add {d : DG} {e : Ep} (h : EpInv d e) (p : Nat × Nat) (hd : Hdr) 
     obtain ⟨q, hq, hq0⟩ := hex
     simp only [List.mem_cons] at hq
     by_cases hp0 : p.1 = 0
-    · exact ⟨hd, by simp [hp0], hproto⟩
+    · exact ⟨hd, by simp [hp0], hproto, hnopt hp0⟩
     · simp only [hp0, if_false]
       rcases hq with rfl | hq
       · exact absurd hq0 hp0
@@ -105,6 +106,9 @@ theorem clearMF_eq (f : Nat) : clearMF f = f - f % 2 := by unfold clearMF; omega
 theorem frag_proto (d : DG) (p : Nat × Nat) (ttl : Nat) : (fragPkt d p ttl).hdr.proto = d.hdr.proto := by
   simp [fragPkt, mkFragPkt]
 
+theorem frag_nopt (d : DG) (p : Nat × Nat) (ttl : Nat) (h : p.1 = 0) : (fragPkt d p ttl).hdr.nopt = d.hdr.nopt := by
+  simp [fragPkt, mkFragPkt, h]
+
 /-- **process refines the reference** on a fragment of a datagram of the family -/
 theorem process_frag {F : List DG} (hF : Family F) (parse : UpperParse) (σ : RefState) (hσ : SInv F σ)
     {d : DG} (hd : d ∈ F) {p : Nat × Nat} (hp : p ∈ d.pieces) (ttl : Nat) :
@@ -124,7 +128,7 @@ theorem process_frag {F : List DG} (hF : Family F) (parse : UpperParse) (σ : Re
     | none => exact EpInv_empty d
     | some e1 => exact (hσ _ (alLookup_mem hl)).2
   have he : EpInv d (((alLookup σ d).getD {}).add p (fragPkt d p ttl).hdr) :=
-    EpInv_add he0 p _ (frag_proto d p ttl)
+    EpInv_add he0 p _ (frag_proto d p ttl) (frag_nopt d p ttl)
   have hs : addFragment ((alLookup (absState σ) (makeKey d.hdr)).getD {}) (fragPkt d p ttl).hdr
       (slice d.payload p.1 p.2) = absStream d (((alLookup σ d).getD {}).add p (fragPkt d p ttl).hdr) := by
     rw [alLookup_abs σ d inj, getD_abs]
@@ -154,8 +158,8 @@ theorem process_frag {F : List DG} (hF : Family F) (parse : UpperParse) (σ : Re
     · exact ⟨hd, he⟩
     · exact hσ x (alErase_subset _ _ x hx)
   by_cases hc : d.complete e = true
-  · simp only [hc, if_true, allocBuf_abs w e hc]
-    obtain ⟨h, hfirst, hproto⟩ := he (complete_has_zero w hc)
+  · obtain ⟨h, hfirst, hproto, hnopt⟩ := he (complete_has_zero w hc)
+    simp only [hc, if_true, allocBuf_abs w e hc (by simp [hfirst, hdrSize, hnopt])]
     have hfp : (absStream d e).first = h := by simp [absStream, hfirst]
     simp only [hfp, hproto, herase]
     cases parse d.hdr.proto d.payload with
